@@ -317,3 +317,12 @@ func U64(v interface{}) uint64 {
 	}
 	return 0
 }
+
+// DecodeAny decodes msgpack bytes into a generic tree (nil on error).
+func DecodeAny(b []byte) interface{} {
+	v, _, err := msgp.ReadIntfBytes(b)
+	if err != nil {
+		return nil
+	}
+	return v
+}
